@@ -90,7 +90,7 @@ struct HashWorld : World {
     const Bytes &key(int a) const { int n = (int)keys.size(); return keys[((a % n) + n) % n]; }
     Bytes value(const Op &op) const {
         int api = op.d & 3;
-        if (api == 3) { char b[32]; snprintf(b, sizeof b, "%" PRId64, (int64_t)op.b); return Bytes(b) + Bytes(1, '\0'); }
+        if (api == 3) { char b[32]; snprintf(b, sizeof b, "%" PRId64, int_value(op.b, op.c)); return Bytes(b) + Bytes(1, '\0'); }
         return gen_value(op.b, op.c, (op.d >> 2) & 7);
     }
     Model *new_model() override { return new HashModel(this); }
@@ -145,7 +145,7 @@ struct HashWorld : World {
             if (api == 0) ok = t->put(t, kp, vp, vb.n);
             else if (api == 1) ok = t->putstr(t, kp, (const char *)vp);
             else if (api == 2) ok = vp ? t->putstrf(t, kp, "%s", (const char *)vp) : t->putstr(t, kp, nullptr);
-            else ok = t->putint(t, kp, (int64_t)op.b);
+            else ok = t->putint(t, kp, int_value(op.b, op.c));
             return ok ? R_ok() : R_fail();
         }
         case H_GET: {
